@@ -34,14 +34,23 @@ Section SlabModel.
   Definition p2dist (a b : pt2) : F :=
     let dx := fst a - fst b in let dy := snd a - snd b in fsqrt ((dx * dx) + (dy * dy)).
 
+  (** Point<2>::distance for spherical points (longitude, latitude): the haversine central angle *)
+  Definition p2dist_sph (a b : pt2) : F :=
+    let dlon := fst b - fst a in let dlat := snd b - snd a in
+    let sdt := fsin (dlat * fhalf) in let sdl := fsin (dlon * fhalf) in
+    f2 * fasin (fsqrt ((sdt * sdt) + (((sdl * sdl) * fcos (snd a)) * fcos (snd b)))).
+
   Record plane_distances := {
     pd_distance : F; pd_along : F; pd_section_fraction : F; pd_segment_fraction : F;
     pd_section : nat; pd_segment : nat; pd_average_angle : F; pd_depth_reference : F; pd_trench : vec3
   }.
 
+  (** DepthMethod of the coordinate system (Cartesian: none) *)
+  Inductive depth_method := DMNone | DMStartingPoint | DMBeginSegment | DMBeginAtEndSegment.
+
   (** loop state of the segment loop *)
   Record seg_state := {
-    ss_begin : pt2; ss_end : pt2; ss_total : F; ss_avg : F;
+    ss_begin : pt2; ss_end : pt2; ss_total : F; ss_avg : F; ss_add : F;
     ss_ndist : F; ss_nalong : F; ss_ndepth : F;            (* new_distance, ... : keep their value across iterations *)
     ss_best : plane_distances
   }.
@@ -104,16 +113,27 @@ Section SlabModel.
     else (endp, None).
 
   (** one iteration of the segment loop; [top0 bot0 len0] belong to the current section, [top1 bot1 len1] to the next *)
-  Definition segment_step (sr frac : F) (isec : nat) (cp2d : pt2) (st : seg_state) (iseg : nat)
+  Definition segment_step (dm : depth_method) (sr frac : F) (isec : nat) (cp2d : pt2) (st : seg_state) (iseg : nat)
              (cur nxt : F * F * F) : seg_state :=
     let '(top0, bot0, len0) := cur in
     let '(top1, bot1, len1) := nxt in
+    (* the angle between the previous begin and end points, seen from the centre (spherical depth methods) *)
+    let uses_add := match dm with DMBeginSegment | DMBeginAtEndSegment => negb (Nat.eqb iseg 0) | _ => false end in
+    let corr :=
+      if uses_add then
+        let inner0 := p2dot (ss_begin st) (ss_end st) / (p2norm (ss_begin st) * p2norm (ss_end st)) in
+        let inner1 := if (inner0 <? f0) && (fdec (-1) (-14) <=? inner0) then f0 else inner0 in
+        let inner := if (f1 <? inner1) && (inner1 <=? (f1 + e14)) then f1 else inner1 in
+        facos inner
+      else f0 in
+    let add := if uses_add then ss_add st + corr else ss_add st in
     let begin := ss_end st in
-    let top := ((top0 + (frac * (top1 - top0))) + f0) + f0 in
-    let bottom := (bot0 + (frac * (bot1 - bot0))) + f0 in
+    let top := ((top0 + (frac * (top1 - top0))) + add)
+               + (match dm with DMBeginAtEndSegment => if Nat.eqb iseg 0 then f0 else - corr | _ => f0 end) in
+    let bottom := (bot0 + (frac * (bot1 - bot0))) + add in
     let len := len0 + (frac * (len1 - len0)) in
     if len <? e14 then
-      {| ss_begin := begin; ss_end := ss_end st; ss_total := ss_total st; ss_avg := ss_avg st;
+      {| ss_begin := begin; ss_end := ss_end st; ss_total := ss_total st; ss_avg := ss_avg st; ss_add := add;
          ss_ndist := ss_ndist st; ss_nalong := ss_nalong st; ss_ndepth := ss_ndepth st; ss_best := ss_best st |}
     else
       let diff := top - bottom in
@@ -132,7 +152,7 @@ Section SlabModel.
           | (endp, None) => (endp, ss_ndist st, ss_nalong st, ss_ndepth st)     (* the previous values stay *)
           end in
       let best := ss_best st in
-      let half_sum := fhalf * ((top + bottom) - (f2 * f0)) in
+      let half_sum := fhalf * ((top + bottom) - (f2 * add)) in
       let best' :=
         if (fdec (-1) (-10) <=? na) && (na <=? fabs len) && (fabs nd <? fabs (pd_distance best)) then
           let taa := (ss_avg st * ss_total st) + (half_sum * na) in
@@ -143,16 +163,16 @@ Section SlabModel.
         else best in
       let aa := (ss_avg st * ss_total st) + (half_sum * len) in
       {| ss_begin := begin; ss_end := endp; ss_total := ss_total st + len;
-         ss_avg := if fabs aa <? feps then f0 else aa / (ss_total st + len);
+         ss_avg := if fabs aa <? feps then f0 else aa / (ss_total st + len); ss_add := add;
          ss_ndist := nd; ss_nalong := na; ss_ndepth := ndep; ss_best := best' |}.
 
-  Fixpoint segment_loop (sr frac : F) (isec : nat) (cp2d : pt2) (st : seg_state) (iseg : nat)
+  Fixpoint segment_loop (dm : depth_method) (sr frac : F) (isec : nat) (cp2d : pt2) (st : seg_state) (iseg : nat)
            (cur nxt : list (F * F * F)) : seg_state :=
     match cur with
     | [] => st
     | c :: cr =>
         let n := match nxt with n :: _ => n | [] => c end in
-        segment_loop sr frac isec cp2d (segment_step sr frac isec cp2d st iseg c n) (S iseg) cr (tl nxt)
+        segment_loop dm sr frac isec cp2d (segment_step dm sr frac isec cp2d st iseg c n) (S iseg) cr (tl nxt)
     end.
 
   (** [geom] : per trench coordinate, per segment: (top angle, bottom angle, length), angles in radians *)
@@ -220,8 +240,87 @@ Section SlabModel.
           let cp2d : pt2 := (v3dot xa rel, v3dot ya rel) in
           let rel0 := v3sub cplc bottom in
           let begin : pt2 := (v3dot xa rel0, v3dot ya rel0) in
-          let st0 := {| ss_begin := begin; ss_end := begin; ss_total := f0; ss_avg := f0;
+          let st0 := {| ss_begin := begin; ss_end := begin; ss_total := f0; ss_avg := f0; ss_add := f0;
                         ss_ndist := finf; ss_nalong := finf; ss_ndepth := finf; ss_best := none |} in
-          ss_best (segment_loop sr frac isec cp2d st0 0 cur nxt)
+          ss_best (segment_loop DMNone sr frac isec cp2d st0 0 cur nxt)
+      end.
+
+  (** ** spherical worlds: the same routine with the natural coordinates (radius, longitude, latitude), the
+      spherical closest-point search on the trench, and the longitude alias of the check point *)
+  Definition distance_point_from_curved_planes_sph (dm : depth_method) (closest_sph : @bezier F -> pt2 -> @closest F)
+             (check_point : vec3) (reference_point : pt2) (point_list : list pt2)
+             (geom : list (list (F * F * F))) (sr : F) (b : @bezier F) : plane_distances :=
+    let '(_, lon, lat) := cartesian_to_spherical check_point in
+    let cps2d : pt2 := (lon, lat) in
+    let cl := closest_sph b cps2d in
+    let cpl2d := cl_point cl in
+    let cpl_nat : vec3 := (sr, fst cpl2d, snd cpl2d) in
+    let cplc : vec3 := spherical_to_cartesian cpl_nat in
+    let none := {| pd_distance := finf; pd_along := finf; pd_section_fraction := f0; pd_segment_fraction := f0;
+                   pd_section := 0; pd_segment := 0; pd_average_angle := f0; pd_depth_reference := f0; pd_trench := cplc |} in
+    if fisnan (fst cpl2d) then none
+    else
+      let isec := cl_index cl in
+      let frac := cl_fraction cl in
+      let bottom : vec3 := spherical_to_cartesian (f0, fst cpl2d, snd cpl2d) in
+      let cps_nat : vec3 := (sr, lon, lat) in
+      let cps : vec3 := spherical_to_cartesian cps_nat in
+      let y_axis0 := v3sub cplc bottom in
+      let x_axis0 := v3sub cplc cps in
+      let cur := nth isec geom [] in
+      let nxt := nth (S isec) geom [] in
+      let axes : option (vec3 * vec3) :=
+        if fabs (v3norm (v3sub cps_nat cpl_nat)) <? fdec 2 (-14) then
+          if fdec 2 (-14) <? fabs (v3norm (v3sub check_point cplc)) then
+            let P1 := nth isec point_list (f0, f0) in
+            let P2 := nth (S isec) point_list (f0, f0) in
+            let p1p2 := p2sub P2 P1 in
+            let unit := p2scale p1p2 (f1 / p2norm p1p2) in
+            let nrm := p2norm cpl2d in
+            let cplpn := p2add cpl2d (p2scale unit (e8 * (if f1 <? nrm then nrm else f1))) in
+            let cplpn_cart : vec3 := spherical_to_cartesian (sr, fst cplpn, snd cplpn) in
+            let ntp0 := v3sub cplpn_cart cplc in
+            let '(ux, uy, uz) := v3div ntp0 (v3norm ntp0) in
+            let ya := v3sub cplc bottom in
+            let '(vx, vy, vz) := v3div ya (v3norm ya) in
+            let xa : vec3 :=
+              ((((((ux * ux) * vx) + ((ux * uy) * vy)) - (uz * vy)) + ((uy * uz) * vz)) + (uy * vz),
+               (((((uy * ux) * vx) + (uz * vx)) + ((uy * uy) * vy)) + ((uy * uz) * vz)) - (ux * vz),
+               (((((uz * ux) * vx) - (uy * vx)) + ((uz * uy) * vy)) + (ux * vy)) + ((uz * uz) * vz)) in
+            let reference_p := p2add (p2scale (p2sub (cl_normal cl) cpl2d) (fdec 1 2)) cpl2d in
+            let ros := if p2nsq (p2sub cpl2d reference_p) <? p2nsq (p2sub cps2d reference_p) then - f1 else f1 in
+            Some (v3scale xa (ros / v3norm xa), (vx, vy, vz))
+          else None
+        else
+          let ya := v3div y_axis0 (v3norm y_axis0) in
+          (* the copy of the check point (longitude, longitude +- 2 pi) closest to the nearer end of the trench interval *)
+          let plx := fst (nth (isec + (if fhalf <=? frac then 1 else 0)) point_list (f0, f0)) in
+          let normal := fabs (plx - lon) in
+          let plus := fabs (plx - (lon + twopi)) in
+          let minus := fabs (plx - (lon - twopi)) in
+          let cps2d_temp : pt2 := if plus <? normal then (lon + twopi, lat) else if minus <? normal then (lon - twopi, lat) else cps2d in
+          let ab_normal := p2scale (cl_normal cl) (p2dist_sph cpl2d reference_point) in
+          let lrp := p2add (p2scale ab_normal f1) cpl2d in
+          let rn_side := p2dot (p2sub cps2d_temp cpl2d) (p2sub lrp cpl2d) <? f0 in
+          let pl0 := nth 0 point_list (f0, f0) in
+          let pll := last point_list (f0, f0) in
+          let rp_side := (((fst pll - fst pl0) * (snd reference_point - snd pl0)) - ((fst reference_point - fst pl0) * (snd pll - snd pl0))) <? f0 in
+          let ros := if Bool.eqb rn_side rp_side then f1 else - f1 in
+          Some (v3scale x_axis0 (ros / v3norm x_axis0), ya) in
+      match axes with
+      | None =>
+          let a0 := fst (fst (nth 0 cur (f0, f0, f0))) in
+          let a1 := fst (fst (nth 0 nxt (f0, f0, f0))) in
+          {| pd_distance := f0; pd_along := f0; pd_section_fraction := frac; pd_segment_fraction := f0;
+             pd_section := isec; pd_segment := 0; pd_average_angle := a0 + (frac * (a1 - a0));
+             pd_depth_reference := f0; pd_trench := cplc |}
+      | Some (xa, ya) =>
+          let rel := v3sub check_point bottom in
+          let cp2d : pt2 := (v3dot xa rel, v3dot ya rel) in
+          let rel0 := v3sub cplc bottom in
+          let begin : pt2 := (v3dot xa rel0, v3dot ya rel0) in
+          let st0 := {| ss_begin := begin; ss_end := begin; ss_total := f0; ss_avg := f0; ss_add := f0;
+                        ss_ndist := finf; ss_nalong := finf; ss_ndepth := finf; ss_best := none |} in
+          ss_best (segment_loop dm sr frac isec cp2d st0 0 cur nxt)
       end.
 End SlabModel.
